@@ -89,6 +89,13 @@ func c12Run(w *kernel.Worker, j *c12Job, rep *kernel.Report) (*Fail, error) {
 				return "svcA"
 			}
 			return "svcB"
+		case "odd-unnamed":
+			// every second span comes in a resource without a service.name: it has no service, whatever resource
+			// precedes it in the same request
+			if i%2 == 1 {
+				return ""
+			}
+			return "svcA"
 		}
 		return "svcA"
 	}
@@ -138,9 +145,11 @@ func c12Run(w *kernel.Worker, j *c12Job, rep *kernel.Report) (*Fail, error) {
 	send := func(idx []int) (*Fail, error) {
 		var rsp []*tracepb.ResourceSpans
 		for _, i := range idx {
-			rsp = append(rsp, &tracepb.ResourceSpans{
-				Resource:   &respb.Resource{Attributes: []*commonpb.KeyValue{{Key: "service.name", Value: anyValue(spans[i].svc)}}},
-				ScopeSpans: []*tracepb.ScopeSpans{{Spans: []*tracepb.Span{spans[i].span}}}})
+			res := &respb.Resource{Attributes: []*commonpb.KeyValue{{Key: "service.name", Value: anyValue(spans[i].svc)}}}
+			if spans[i].svc == "" {
+				res = &respb.Resource{Attributes: []*commonpb.KeyValue{{Key: "host.name", Value: anyValue("h")}}}
+			}
+			rsp = append(rsp, &tracepb.ResourceSpans{Resource: res, ScopeSpans: []*tracepb.ScopeSpans{{Spans: []*tracepb.Span{spans[i].span}}}})
 		}
 		pb, err := proto.Marshal(&coltracepb.ExportTraceServiceRequest{ResourceSpans: rsp})
 		if err != nil {
@@ -373,6 +382,9 @@ func C12() int {
 				if i == n {
 					ps := append([]int{}, parents...)
 					svcs := []string{"one", "alt", "root-vs-rest"}
+					if k%5 == 0 {
+						emit(c12Job{Parents: ps, Services: "odd-unnamed", Status: "all-ok", Order: []string{"asc", "desc"}[k%2], Flush: k%4 >= 2})
+					}
 					sts := []string{"ok", "one-error", "all-error"}
 					if rep.Tier != "thorough" {
 						// quick: rotate through the patterns instead of the full product (stated in bounds)
